@@ -94,6 +94,7 @@ PROPS = {
         "runs": [
             {"harness": "H_C12_immutable", "quick": {"calls": 2}, "thorough": {"calls": 3}},
             {"harness": "H_C12_concurrent", "stress": 2000, "quick": {"preempt": 1}, "thorough": {"preempt": 2}},
+            {"harness": "H_C11_location", "params": {"percent": 0}, "quick": {"n": 0}, "thorough": {"n": 1}},
         ],
         "bounds": {"quick": "every subset of {Filename, Ext, Update, JSON} options; sequences of 1..2 of the five entry points through one shared Config; two goroutines issuing any pair of entry points through one shared Config, all schedules with <= 1 preemption",
                    "thorough": "sequences of 1..3 entry points"},
@@ -115,6 +116,7 @@ PROPS = {
     "C18": {
         "runs": [
             {"harness": "H_C18_yaml", "reach": ["valid", "invalid"], "quick": {"n": 4}, "thorough": {"n": 6}, "args": ["-sample-every", "11"], "validate": {"quick": 5, "thorough": 10}},
+            {"harness": "H_C04_update", "params": {"struct": 1, "frames": 1}, "quick": {"lines": 2}, "thorough": {"lines": 3}},
         ],
         "bounds": {"quick": "documents: arbitrary bytes <= 4, and five part-concrete shapes (multi-document stream, block scalar with a --- line, comment, "
                             "header-like flow sequence, trailing blank lines) with symbolic leaves; string and []byte input; final newline present/absent",
@@ -141,6 +143,7 @@ PROPS = {
             {"harness": "H_C20_summary"},
             {"harness": "H_C20_skips", "quick": {"skips": 3}, "thorough": {"skips": 4}},
             {"harness": "H_C20_concurrent", "stress": 20000},
+            {"harness": "H_C17_matcher_errors", "quick": {"matchers": 1}, "thorough": {"matchers": 2}},
         ],
         "bounds": {"quick": "one call: CI x Update option x UPDATE_SNAPS (<= 4 bytes) x 5 entry points x entry state, every file-system operation may fail; "
                             "a test name longer than NAME_MAX (real write failure); summary: counters in {0,1,2,11}, 0..2 obsolete files and tests, both modes; 1..3 Skip*/Skipf/SkipNow calls on TestP, TestP/child, TestQ followed by Clean",
@@ -220,6 +223,7 @@ PROPS = {
     "C15": {
         "runs": [
             {"harness": "H_C15_json", "quick": {"strlen": 2}, "thorough": {"strlen": 2, "neighbour": 1}},
+            {"harness": "H_C15_multi", "quick": {"strlen": 1}, "thorough": {"strlen": 2}},
         ],
         "bounds": {"quick": "document {a:V,o:{k:V},z:[V,2]}; path a, o.k or z.0; the targeted V in 1..2-digit number / string of <= 2 bytes / true|null, the others fixed; placeholder default string, short string, number, bool; Any and Custom",
                    "thorough": "one neighbouring value symbolic as well"},
@@ -239,6 +243,7 @@ PROPS = {
     "C16": {
         "runs": [
             {"harness": "H_C16_mask", "reach": ["same", "different"], "quick": {"n": 1}, "thorough": {"n": 2}},
+            {"harness": "H_C16_update"},
         ],
         "bounds": {"quick": "document {a:S,m:S} with string values of <= 1 byte; m masked by Any, Type[string] or Custom; variants with independent masked values and equal or different unmasked value; MatchJSON and MatchStandaloneJSON",
                    "thorough": "string values of <= 2 bytes"},
